@@ -14,7 +14,7 @@ CHECKS = {
                 'KKT conditions of the constrained least-squares problem, beats integer competitors around the optimum, and that chi^2 is the minimum plus '
                 'penalties.  A seed-chosen 1/8 (thorough 1/16 of a 25x larger space) of those behaviours is replayed through real Fitter.fit on real packages and every '
                 "model's (A_V, scale, chi^2) compared by name; random wider sources/grids (2-4 bands, 1-8 models, +-12 dex) are recorded from the code "
-                'and validated by Trace_FitKernel.  A second TLC run covers 4-band sources over flags {1,2,3} with two different confidences (two limits next to a non-singular regression).  The extinction law of every real world is tabulated in a representation drawn from a hash of the world (micron/nm/Angstrom/cm/mm, cm2/g | m2/kg, overall factor).',
+                'and validated by Trace_FitKernel.  A second TLC run covers 4-band sources over flags {1,2,3} with two different confidences (two limits next to a non-singular regression).  The extinction law of every real world is tabulated in a representation drawn from a hash of the world (micron/nm/Angstrom/cm/mm, cm2/g | m2/kg, overall factor). TLC also checks ScaleK (coefficients x2 with the range halved give A_V/2 and nothing else changes); a third of the real worlds have coefficients 2^-13 as large. Representation twins: the same photometry as float arrays, integer arrays and lists must fit identically. A third of the worlds are cube-format packages.',
         'ref': 'DESIGN.md section 6 C01',
         'note': _NOTE + ' Inputs are lattice points (integers in quarter dex, W in {1,4,16}, K_j in 0..4); nothing is claimed about rounding-error growth off the lattice.',
         'technique': 'TLA+ spec (exact rational kernel) + TLC exhaustive check of KKT optimality; spec->code replay; code->spec trace validation',
@@ -24,7 +24,7 @@ CHECKS = {
                 '(b) the exact construction of aperture tables from a desired cube for the recipes on-a-knot / midway-between-two-knots / beyond-the-largest-knot (ASSUMEd theorem on integer-dex instances, ratios 2 and 10); (c) per model and distance the 1-parameter A_V optimum, '
                 'clip, chi^2 with penalties (FitKernel!FitAtDist), KKT certificate per distance and ChiIsGridMinimum, for all 36 flag pairs x values x qualities, 2 cubes (pure inverse square; exact ties over the grid, non-monotone, duplicated model), 3 extinction patterns, 4 A_V ranges, 1..3 distances.  '
                 'Replay on real aperture-dependent packages of both formats (memmap on/off): models.distances and every cell of models.fluxes (interpolation x d^-2), then every model of every sampled FitInfo (scale = log10 of a grid distance in the admissible set, A_V, chi^2, predicted fluxes at that distance); '
-                'grid sizes for 125 (span, step) combinations.',
+                'grid sizes for 125 (span, step) combinations. Real worlds vary the unit of the distance range (kpc/pc/lyr), of the aperture radii handed to the fitter (arcsec/arcmin/deg) and of the tabulated radii (AU/pc/cm).',
         'ref': 'DESIGN.md section 6 C02',
         'note': _NOTE + ' Exact multiples span/step admit n or n+1 distances; a limit exactly met at some distance relaxes that model\'s comparison. remove_resolved is not modelled.',
         'technique': 'TLA+ spec (exact grid arithmetic, table construction, per-distance kernel) + TLC; spec->code replay through Fitter on constructed aperture tables',
@@ -42,7 +42,7 @@ CHECKS = {
     'C04': {
         'text': 'TLC checks that a ranking (permutation non-decreasing in chi^2 under Fin < Big(n)) exists and that the predicted log fluxes are model + A_V k - 2 scale for '
                 'every enumerated source/grid (incl. duplicated and mirror-image models: exact ties; certain limits: Big chi^2).  Replay compares the whole FitInfo: every model exactly once, '
-                'observed chi^2 non-decreasing, and per row (matched by model name) model_id, A_V, scale, chi^2 and every predicted flux.',
+                'observed chi^2 non-decreasing, and per row (matched by model name) model_id, A_V, scale, chi^2 and every predicted flux. A dark-model stage inserts a model with zero flux in a fitted band at a seed-chosen position of the package (non-finite chi^2 listed before finite ones) and compares every spec row by name with shifted indices.',
         'ref': 'DESIGN.md section 6 C04',
         'note': _NOTE + ' Tie order is free.  Infinite chi^2 is produced by a small MC_Resolved instance (remove_resolved=True) replayed through the real Fitter: every row incl. predicted fluxes and the position of the inf rows is compared.',
         'technique': 'TLA+ spec + TLC; spec->code replay of whole FitInfo rows; trace validation (rank, ids, predicted fluxes)',
@@ -52,7 +52,7 @@ CHECKS = {
                 'Rebin.tla enumerates every filter (2..3 nodes quick / 2..4 thorough out of 6-8 lattice frequencies, responses {0,1,2}, zero and non-zero edges) x every SED grid (2..4 / 2..5 nodes: coarser, finer, partial, disjoint, '
                 'edge-coincident, last bin containing the last-but-one filter node) and TLC checks sum_i R_i = integral over the overlap, non-negativity, zero outside the filter, flat spectrum -> c for a normalised filter inside the grid, '
                 'and linearity.  Sampled behaviours are replayed into Filter.rebin with filter and grid each stored in increasing and decreasing frequency, filters read from two-column wavelength files in either row order, and '
-                'Filter.normalize; recorded random filters (2-60 samples, irregular spacing) and grids (2-80) are validated by Trace_Rebin.  convolve_model_dir end to end (flux and quadrature errors, both package formats) is replayed by the Package.tla stage (shared with C07) inside this check: every model of a package has one of two frequency grids of equal length and equal end points, and one Filter object is re-used over grids.',
+                'Filter.normalize; recorded random filters (2-60 samples, irregular spacing) and grids (2-80) are validated by Trace_Rebin.  convolve_model_dir end to end (flux and quadrature errors, both package formats) is replayed by the Package.tla stage (shared with C07) inside this check: every model of a package has one of two frequency grids of equal length and equal end points, and one Filter object is re-used over grids. Filter responses are handed over as float arrays, integer arrays or lists, frequencies in Hz/GHz/THz, central wavelengths in micron/nm/cm.',
         'ref': 'DESIGN.md section 6 C06',
         'note': _NOTE + ' Integer frequency lattice in units of c/12um; SED grid nodes even so that bin edges are lattice points.',
         'technique': 'TLA+ spec (exact integrals) + TLC exhaustive theorems; spec->code replay in all storage orders and through filter files; trace validation',
@@ -61,7 +61,7 @@ CHECKS = {
         'text': 'Package.tla: a package of 3 models (each on one of two SED frequency grids; 6 parameter-table orders x 6 directory-listing / cube orders x 2^3 stored spectral orders x per-file | cube x 1 | 2 apertures) convolved with 2 filters; the algorithm layer is the code\'s '
                 '(rows in listing order, order_to_match re-ordering to the table; cube rows in cube order, refused when cube and table orders differ), expected fluxes and squared errors come from RebinOps exactly.  TLC checks RowsLabelledRight, '
                 'OrderFollowsTable, CubeRefusesMismatch, CellsDistinct on all 2304 packages.  Replay builds each sampled package for real (SED files via SED.write and as raw FITS per the docs, cube via SEDCube.write), runs convolve_model_dir with both '
-                'filters at once, reads every convolved file (row names/order, FILTWAV, apertures, flux and error per aperture to 2e-6) and fits a source with every variant, memmap on and off, requiring agreement between variants; concrete size 3 or 6 models and 2 or 4 apertures (copies / aperture blocks scaled, expected cells by linearity); a third of the packages are convolved in two calls with a fit and a listing in between.',
+                'filters at once, reads every convolved file (row names/order, FILTWAV, apertures, flux and error per aperture to 2e-6) and fits a source with every variant, memmap on and off, requiring agreement between variants; concrete size 3 or 6 models and 2 or 4 apertures (copies / aperture blocks scaled, expected cells by linearity); a third of the packages are convolved in two calls with a fit and a listing in between. Half of the per-file SED files hold nu F_nu in erg/cm2/s (legacy or FITS unit strings) instead of F_nu in mJy.',
         'ref': 'DESIGN.md section 6 C07',
         'note': _NOTE + ' This check also decides the end-to-end half of C06 (flux = sum F R, errors in quadrature).',
         'technique': 'TLA+ spec (order_to_match permutation algebra + exact convolution) + TLC exhaustive; replay through convolve_model_dir on real packages of both formats',
@@ -70,7 +70,7 @@ CHECKS = {
         'text': 'MC_Planted.tla (on FitKernel): photometry synthesised on the lattice from model mp at (A_V0, scale) or at grid distance i0; TLC checks PlantedRecovered for 3 grids x 2 extinction patterns x every planted model x 4 planted (A_V0, scale) x 3 relative errors x '
                 '{aperture-independent, distance grid x 3 planted distances} x {no extra model, a 4th model with zero flux in a fitted band (PlantedFirst, DarkLast: its chi^2 is NaN or >= 1e30 and it is ranked last)}: chi^2 = 0 exactly at the planted parameters, the planted distance is the unique grid minimum, and every other model has chi^2 > 0 whenever the grid is non-degenerate -- '
                 'non-degeneracy (no model in another\'s span of reddening + scaling) is computed by the spec.  Replay runs the WHOLE chain on real files: SED package (per-file or cube, random table permutation, storage orders, library or raw writer) with SEDs constant over each '
-                'normalised filter\'s support -> convolve_model_dir -> data file -> fit() -> first record of the fit file -> write_parameters first row (model, chi^2, A_V, scale, the model\'s own parameter row).',
+                'normalised filter\'s support -> convolve_model_dir -> data file -> fit() -> first record of the fit file -> write_parameters first row (model, chi^2, A_V, scale, the model\'s own parameter row). The planted tables of the distance mode depend on the aperture (AP = <<0,1,2>> quarter dex at the three requested radii) and packages store their radii in AU, pc or cm.',
         'ref': 'DESIGN.md section 6 C08',
         'note': _NOTE + ' Planted A_V0 and scale are multiples of 1.25 mag and 1/8 dex so that the photometry stays on the quarter-dex lattice.',
         'technique': 'TLA+ spec (FitKernel + computed non-degeneracy) + TLC; end-to-end replay of the full pipeline on real packages',
@@ -79,7 +79,7 @@ CHECKS = {
         'text': 'Post.tla (on FitSession): the algorithm layer is FitInfo.filter_table\'s index arithmetic (subset of a table by the kept names, argsort(argsort(names))); TLC checks for 4 sources x record lengths 0..4 x 8 selectors x all 24 '
                 'parameter-file row orders that with a name-sorted table the row attached to fit i is the row of the model named in fit i (RowsFollowRanking) and that without the sort this fails exactly when the file is not already sorted (SortIsNeeded).  '
                 'Per (source, record, selector) the spec emits every model\'s chi^2, A_V, scale and parameter row; replay runs write_parameters, extract_parameters, write_parameter_ranges and FitInfo.filter_table on real packages whose parameter file '
-                'is in a random row order with padded names and has 1, 2, 3 or 4 numeric columns, with file / object / list input and optional additional-parameter dictionaries, and compares every printed cell by model name (rows in chi^2 order, the n best, n_data, n_fits, min/best/max, zero-fit placeholder).',
+                'is in a random row order with padded names and has 1, 2, 3 or 4 numeric columns, with file / object / list input and optional additional-parameter dictionaries, and compares every printed cell by model name (rows in chi^2 order, the n best, n_data, n_fits, min/best/max, zero-fit placeholder). One model carries the additional-parameter value 0 exactly.',
         'ref': 'DESIGN.md section 6 C09',
         'note': _NOTE + ' Printed precision (4 significant digits); exact chi^2 ties at the cut / at rank 1 relax the min/max / best comparison of non-chi^2 columns.',
         'technique': 'TLA+ spec (permutation algebra of filter_table on FitSession/FitKernel) + TLC exhaustive; replay through the three listing functions',
@@ -108,7 +108,7 @@ CHECKS = {
     'C15': {
         'text': 'Units.tla is the exponent algebra of convert_flux (F = nu F_nu, L = F d^2, powers of ten): TLC checks RoundTrip, PathIndependent, FamilyRelations and ChainIsDirect for all 5x5 pairs and 5x5x5 triples of '
                 '{mJy, Jy, erg/cm2/s, W/m2, erg/s}.  Every pair and triple is replayed through SED.write -> SED.read(unit_flux=...) -> write -> read with 1-5 apertures, per-cell frequencies and distances that are powers of ten '
-                '(so the expected value is exact), and an unsupported unit (K) must be refused.',
+                '(so the expected value is exact), and an unsupported unit (K) must be refused. Half of the files whose cells fit the 4-byte range in both intermediate forms are rewritten with FITS E (single precision) columns before being read.',
         'ref': 'DESIGN.md section 6 C15',
         'note': _NOTE + ' The family fits this property least (DESIGN.md 9): the spec is an additive group and nearly all assurance is the exhaustive replay; astropy unit arithmetic is trusted.',
         'technique': 'TLA+ exponent-algebra spec + TLC; exhaustive replay of all unit pairs/triples through real SED files',
@@ -118,7 +118,7 @@ CHECKS = {
                 'over radii subsets of {1,2,4,8,16} AU (1..3 knots quick, 1..4 thorough), 2 rows, values in {0,1,3} (0..3) and TLC checks ExactAtKnots, LinearBetween, ClampedAbove, RefusedBelow, '
                 'SingleRepeats and that one too-small request refuses the call while others are unaffected, for 15 requests from below to above the table.  Every sampled table is replayed into '
                 'ConvolvedFluxes.interpolate (table and requests in AU/pc/cm, flux and error rows), SED.interpolate (bare numbers in AU and quantities) and SED.interpolate_variable (bare numbers in AU, table in AU/pc/cm); a request ON a tabulated radius is derived from the stored value of the table converted to the unit of the request; '
-                'recorded random tables (1-8 knots, 1-6 rows) are validated by Trace_ApInterp.',
+                'recorded random tables (1-8 knots, 1-6 rows) are validated by Trace_ApInterp. Every request is also issued in a shuffled order.',
         'ref': 'DESIGN.md section 6 C13',
         'note': _NOTE + ' No refusal is admitted at a tabulated radius (requests on the table are derived from the table); the plotting variant may use 0.999 x largest radius at and above the table end.',
         'technique': 'TLA+ spec (exact piecewise-linear functions) + TLC exhaustive; spec->code replay into three entry points; trace validation',
@@ -137,7 +137,7 @@ CHECKS = {
                 'TLC checks for every n_wav 2..5 (thorough 2..9), every chunk size 1..n_wav and every window with ends on or between wavelengths (single-wavelength, empty and unbounded windows included) that exactly the in-range wavelengths are '
                 'emitted (a bound equal to a wavelength left open), each once, independently of the chunk size, and that the loop terminates (liveness under weak fairness).  EVERY behaviour is replayed on real per-file packages '
                 '(1-5 models, 1-3 apertures, SEDs stored in either order, max_ram chosen to hit the chunk size): set of files, returned table, and every (model, aperture) cell, row order, FILTWAV and apertures of every file; and the nearest-wavelength '
-                'slice on real cube packages through Fitter with wavelength filters (geometric wavelength grid; requests just above a wavelength, just above the harmonic mean of two neighbours, just below / on / just above their arithmetic mean, below the first and above the last; memmap on/off).',
+                'slice on real cube packages through Fitter with wavelength filters (geometric wavelength grid; requests just above a wavelength, just above the harmonic mean of two neighbours, just below / on / just above their arithmetic mean, below the first and above the last; memmap on/off). Windows are given in micron, nm, Angstrom or mm.',
         'ref': 'DESIGN.md section 6 C16',
         'note': _NOTE + ' Chunk steps are internal (silent); only the call and its result are observed.',
         'technique': 'TLA+ spec of the chunk loop + TLC (safety, action property, liveness) exhaustive; every behaviour replayed on real packages',
@@ -146,7 +146,7 @@ CHECKS = {
         'text': 'Plot.tla: the collection of curves plot() returns -- per display mode the apertures shown (interp: each filter\'s own; largest; smallest+largest; all distinct filter apertures in increasing order), drawn for the selected fits n..1 so that the best fit is last; '
                 'TLC checks CurveCount, BestLast, EveryFitShown and PassesThroughPred for 1..5 selected fits x 4 modes x 5 filter-aperture patterns x single/multi-aperture package x object/file input.  EVERY configuration is replayed: real cube package, Fitter with wavelength filters '
                 'at tabulated wavelengths, Fitter.fit, plot(..., output_dir=None, sed_type=..., select_format=("N", n)) on the object or on a fit file; number and order of the segments of the returned LineCollection, and each curve at each fitted wavelength whose filter aperture it is shown for '
-                'against the predicted flux stored with the fit (mJy -> nu F_nu), within 2e-3 dex.',
+                'against the predicted flux stored with the fit (mJy -> nu F_nu), within 2e-3 dex. Plot worlds use unsorted model names and tabulate the law in micron/nm/cm/Angstrom.',
         'ref': 'DESIGN.md section 6 C17',
         'note': _NOTE + " Nothing is claimed about what reaches the canvas; the unimplemented sed_type 'smallest' is outside the property.",
         'technique': 'TLA+ spec of the curve layout + TLC exhaustive; every configuration replayed through Fitter.fit and plot() on real cube packages',
@@ -154,7 +154,7 @@ CHECKS = {
     'C18': {
         'text': 'filter_output is the Split action of FitSession: a verdict per record from the best chi^2 (chi=) or best chi^2 per fitted point (cpd=) against the threshold, under Select\'s abstract-float rules.  '
                 'Thresholds are generated tightly around every pool source\'s own criterion value.  Replay through the real function on file and list inputs (explicit and automatic output names): each source in exactly one '
-                'file, input order kept, records NaN-aware equal to the input, verdicts as the spec says; recorded sessions validated by Trace_FitSession.',
+                'file, input order kept, records NaN-aware equal to the input, verdicts as the spec says; recorded sessions validated by Trace_FitSession. Output names: both automatic, both explicit, or one of each.',
         'ref': 'DESIGN.md section 6 C18',
         'note': _NOTE + ' Records with zero kept fits are not split (the function indexes the best fit).',
         'technique': 'TLA+ state machine + TLC; behaviours replayed through filter_output; trace validation',
@@ -173,7 +173,7 @@ CHECKS = {
                 '(open = load 3 blocks; iterate until no byte is left; a partial block fails).  TLC checks PrefixOrError, CleanStop, reader == ReadResult(blocks, cut) and termination for every '
                 'size pattern over {2,3,5} bytes, 1..3 (thorough 4) records and every cut.  The self-delimiting assumption is discharged on real bytes: real files (1-4 records, with/without predicted '
                 'fluxes, n_fits 0..n_models) are cut at EVERY offset, read with FitInfoFile, and the outcome (opened, records yielded, each compared NaN-aware with the written one, clean stop or error) '
-                'is validated by Trace_Crash against the real block sizes.',
+                'is validated by Trace_Crash against the real block sizes. Two more files hold a first record of 2 500 / 12 000 fits (thorough: up to 40 000) and are cut at ~300 spread offsets and at every pickle boundary; 40% of the records have exactly the byte size of their predecessor.',
         'ref': 'DESIGN.md section 6 C19',
         'note': _NOTE + ' To the letter of C19 an early failure is admitted; a record not wholly before the cut, a differing record, or opening without complete metadata is not.',
         'technique': 'TLA+ spec of writer/crash/reader + TLC (safety + liveness); exhaustive truncation of real files validated as traces',
@@ -183,7 +183,7 @@ CHECKS = {
                 'TLC checks on every token-class sequence of length 0..9 (thorough 0..12) over {flag int, other int, non-integer number, non-number} that a line is parsed by the layout or rejected, '
                 'that fewer than 3 columns ends the input, and that Format/Parse round-trips.  A seed-chosen 1/5 of those lines are rendered as text (two renderings each) and replayed through '
                 'Source.from_ascii with every parsed field compared, then to_ascii/from_ascii (printed precision), dict and pickle round trips.  Recorded data files (n <= 12 bands, one corruption per line, '
-                'short lines ending the input) are validated by Trace_SourceLine.',
+                'short lines ending the input) are validated by Trace_SourceLine. Names include characters that mean something elsewhere (#, %, :, +, /, quotes, braces).',
         'ref': 'DESIGN.md section 6 C20',
         'note': _NOTE + ' Decimal formatting precision is compared by the harness, not by TLC.',
         'technique': 'TLA+ spec over token classes + TLC exhaustive; spec->code replay of rendered lines; trace validation of recorded files',
